@@ -86,7 +86,7 @@ def t_alphabet(b):
     return sorted(out)
 
 
-def check_path(segs, case, acc, Ts=None):
+def check_path(segs, case, acc, Ts=None, pair_max_n=3):
     p = Path(*segs)
     n = len(segs)
     ls, tot, fr, b = reference(segs)
@@ -134,6 +134,26 @@ def check_path(segs, case, acc, Ts=None):
                 # lookup by segment object: the first equal segment wins; only compare when unambiguous
                 if sum(1 for s in segs if s == segs[k]) == 1 and not abs(r3[1] - r2[1]) <= 16 * EPS:
                     acc.violation('t2T_by_segment_differs', sig0, c(), observed=r3, expected=r2)
+    # query order: the answer for T must not depend on which T was asked before (every ordered pair
+    # of the alphabet on the SAME path object, against the answers of the ascending sweep above,
+    # each of which was validated against the reference fractions)
+    if Ts is None and n <= pair_max_n:
+        alpha = t_alphabet(b)
+        first = {}
+        for T in alpha:
+            first[T] = (outcome(lambda: p.T2t(T)), outcome(lambda: p.point(T)))
+        for Ta in alpha:
+            for Tb in alpha:
+                acc.evaluations += 1
+                p.point(Ta)
+                got = (outcome(lambda: p.T2t(Tb)), outcome(lambda: p.point(Tb)))
+                if got != first[Tb] and not (got[1][1] != got[1][1]):
+                    acc.violation('answer_depends_on_previous_query', dict(sig0, fn='point' if got[1] != first[Tb][1] else 'T2t'),
+                                  dict(case, T=Tb, previous_T=Ta), observed=got, expected=first[Tb])
+                    break
+            else:
+                continue
+            break
     # ends: point(0)/point(1) are the first segment's start point / last segment's end point
     # (exactly what those segments return; an Arc reproduces its end points only to ~1e-8, see C04)
     pe = outcome(lambda: (p.point(0), p.point(1), p.start, p.end))
@@ -233,6 +253,7 @@ def space(tier, seed):
     tp = tier_params(tier, seed)
     return {'pool': [p[0] for p in POOL], 'max_words_length': tp['n'], 'joint_relations': JOINTS,
             'equal_line_families_k': tp['equal_ks'],
+            'query_order': 'every ordered pair (previous T, T) of the alphabet on the same Path object, paths of <= 3 segments',
             'T_alphabet': '0, 1, nextafter(0,1), nextafter(1,0), 0.5, 1/3, 0.999999, every cumulative boundary b_k, its two float neighbours, every interval midpoint'}
 
 
@@ -249,5 +270,10 @@ def replay(case):
             pen = segs[-1].end
     else:
         segs = build(tuple(c['word']), tuple(c['joints']))
+    prev = c.pop('previous_T', None)
+    if prev is not None:
+        check_path(segs, c, acc, Ts=None)
+        acc.vlist = [v for v in acc.vlist if v['clause'] == 'answer_depends_on_previous_query']
+        return acc.vlist
     check_path(segs, c, acc, Ts=None if T is None else [T])
     return acc.vlist
